@@ -133,6 +133,34 @@ def run(ctx, res):
         strip = lambda t: t._data[2:-2] if type(t).__name__ == 'TokLabel' else t._data  # noqa: E731
         check_relation(res, 'C02:program:%s:%s' % (cfg, hx(given)[:50]), {'source': hx(given), 'cfg': cfg, 'keep': [hx(k) for k in keep]},
                        [strip(t) for t in ti], [strip(t) for t in to], reserved, set(keep), False)
+    # two minifications alive at the same time: the writer's to_lines() is lazy, so a caller can read part of cart A's minified code,
+    # minify cart B, and read the rest of A; each output must still carry ONE consistent injective renaming of its own identifiers
+    from pico8.lua import lua as lua_
+    for i in range(ctx.budget(6, 60)):
+        na, nb = rng.choice([31, 40, 60, 700]), rng.choice([1, 5, 30, 800])
+        srcs = [b''.join(b'%s%d_%d = %d\n' % (tag, i, k, k) for k in range(n)) + b''.join(b'f(%s%d_%d)\n' % (tag, i, k) for k in range(0, n, 3))
+                for tag, n in ((b'alpha', na), (b'beta', nb))]
+        try:
+            wa = lua_.LuaMinifyTokenWriter(tokens=M.real_tokens([srcs[0]]), root=None, args={})
+            ga = wa.to_lines()
+            head = []
+            for _ in range(rng.choice([27, 33, 90])):
+                head.append(next(ga))
+            outb = b''.join(lua_.LuaMinifyTokenWriter(tokens=M.real_tokens([srcs[1]]), root=None, args={}).to_lines())
+            outa = b''.join(head) + b''.join(ga)
+        except StopIteration:
+            continue
+        except Exception as e:
+            res.fail('C02:interleaved:%d' % i, 'minifying two carts alternately raised %r' % (e,), {'a': hx(srcs[0])[:200], 'b': hx(srcs[1])[:200]})
+            continue
+        res.evaluations += 1
+        res.count('interleaved-minifications')
+        for src_, out_, nm_ in ((srcs[0], outa, 'first (read in two parts)'), (srcs[1], outb, 'second')):
+            ti = [t._data for t in M.real_tokens([src_]) if type(t).__name__ == 'TokName']
+            to = [t._data for t in M.real_tokens([out_]) if type(t).__name__ == 'TokName']
+            if len(ti) == len(to):
+                check_relation(res, 'C02:interleaved:%d:%s' % (i, nm_[:5]), {'first': hx(srcs[0]), 'second': hx(srcs[1]), 'which': nm_},
+                               ti, to, reserved, set(), False)
     # command line wiring of the keep options: `p8tool luamin [--keep-all-names | --keep-names-from-file F] cart` = the library minifier
     # with the same configuration (on .p8 and .p8.png carts)
     import contextlib
